@@ -13,7 +13,7 @@ var props = map[string]propCfg{
 			"(random bytes, structured text, 1-3 token mutations of repository patches, template-grammar ill-typed patches) crossed with repository test inputs " +
 			"and generated targets in which the minus side occurs; run through patch.Parse+Apply behind recover and a 10 s watchdog, a sample also through the CLI. " +
 			"The template grammar also plants targets in which an optional part that the pattern fills with a metavariable is absent (plain break / continue / return, a[:], no receiver, no result, no initialiser, embedded field, switch without tag ...; 40 templates) and uses elisions in lists that must not be empty (x := ..., ... = f(), var x = ..., case ...:, go ..., x[...]). " +
-			"Non-trivial = the patch got past sectioning and metavariable parsing (reached pgo/engine, or crashed); distinct by sha256(patch, target). Mode 'many-elisions': valid patches with a dozen or more elisions, among them in parameter lists of nested func literals and a leading '...'. Stress mode 'import-combinations': one path listed 1-9 times by the change under metavariable names against a file that imports it 1-9 times. One CLI case in three gives the target a name of 249 bytes (no room for a temporary sibling: the failure to write has to be reported, not crash).",
+			"Non-trivial = the patch got past sectioning and metavariable parsing (reached pgo/engine, or crashed); distinct by sha256(patch, target). Mode 'many-elisions': valid patches with a dozen or more elisions, among them in parameter lists of nested func literals and a leading '...'. Stress mode 'import-combinations': one path listed 1-9 times by the change under metavariable names against a file that imports it 1-9 times. One CLI case in three gives the target a name of 249 bytes (no room for a temporary sibling: the failure to write has to be reported, not crash). Hostile constants include line directives ('//line f.go:1', '/*line f.go:1:1*/' between the tokens of a declaration) in every frame, the metavariable section among them. The import-combination stress mode may end the list with an import the file lacks or whose name is bound otherwise.",
 		Assumptions: []string{
 			"a hang is 'no return within 10 s' for inputs of at most a few KB (normal run time is below 5 ms)",
 			"native go test -fuzz campaigns cannot be seed-pinned; they are run separately (thorough) and their crashers are replayed here",
@@ -24,7 +24,7 @@ var props = map[string]propCfg{
 		Quick:    tierCfg{Shards: 8, Checks: 2000, Timeout: 4 * time.Minute},
 		Thorough: tierCfg{Shards: 16, Checks: 20000, Timeout: 40 * time.Minute},
 		Rule: "a pattern (expression, statement run, func/type/value declaration) is mined from a drawn place of a real Go file (standard-library sample, repository test inputs, hand-written exotic file) by replacing drawn sub-expressions/identifiers with metavariables and drawn list runs with elisions; the plus side is a drawn edit carrying a marker; 0-3 fresh instances and 1-5 single-field mutants of instances (operator, literal, name, arity, variadic '...', alias '=', channel direction, optional child, metavariable kind/consistency) are planted at drawn statement/declaration positions in drawn syntactic contexts. Oracle: reference matcher/rewriter over canonical syntax trees. " +
-			"Non-trivial = the reference finds >= 1 site and confirms >= 1 planted mutant as a non-instance; distinct by sha256(patch, file). Output comparison counts parentheses one way: more than expected is tolerated, an expected parenthesis that is absent is a difference. An Apply error is a discrepancy when the reference finds admissible sites and its result is valid Go. One case in 12 is a synthetic nested-choice case ('-hq(fq(..., x, ...), x)': the reference searches completely, sites that only a complete search finds are a listed finding). Outside reference sites parentheses must be exactly the expected ones.",
+			"Non-trivial = the reference finds >= 1 site and confirms >= 1 planted mutant as a non-instance; distinct by sha256(patch, file). Output comparison counts parentheses one way: more than expected is tolerated, an expected parenthesis that is absent is a difference. An Apply error is a discrepancy when the reference finds admissible sites and its result is valid Go. One case in 12 is a synthetic nested-choice case ('-hq(fq(..., x, ...), x)': the reference searches completely, sites that only a complete search finds are a listed finding). Outside reference sites parentheses must be exactly the expected ones. Near-miss kinds added: a string literal respelled (first character as an escape, or as a raw string: the same value, another token), and the same children moved to another optional slot (s[i:] / s[:i], for init; ; / for ; ; post).",
 		Assumptions: modelAssumptions,
 		MinNontriv:  50,
 	},
@@ -32,7 +32,7 @@ var props = map[string]propCfg{
 		Quick:    tierCfg{Shards: 8, Checks: 2000, Timeout: 4 * time.Minute},
 		Thorough: tierCfg{Shards: 16, Checks: 20000, Timeout: 40 * time.Minute},
 		Rule: "as C01 with generalisation biased to repeated metavariables (same hole for tree-equal subterms, and a forced second occurrence that makes the original code a near-miss) and identifier holes; mutants include 'one occurrence differs / is parenthesised' and 'identifier hole filled with a.b, (a), f(), 5, *p'. " +
-			"Non-trivial = a repeated or identifier metavariable, >= 1 site and >= 1 confirmed near-miss in the same file. One case in 12 is a synthetic nested-choice case (see C01). One case in 15 is of the import part: an identifier metavariable names an import of the change and qualifies its code ('import pk \"example.com/bound/pkg\"', '-pk.Send(m)'); the file imports the path under a drawn name or none and calls Send through 2-6 drawn qualifiers; only calls through the bound name are instances.",
+			"Non-trivial = a repeated or identifier metavariable, >= 1 site and >= 1 confirmed near-miss in the same file. One case in 12 is a synthetic nested-choice case (see C01). One case in 15 is of the import part: an identifier metavariable names an import of the change and qualifies its code ('import pk \"example.com/bound/pkg\"', '-pk.Send(m)'); the file imports the path under a drawn name or none and calls Send through 2-6 drawn qualifiers; only calls through the bound name are instances. The file may import the path a second time, under a name that stands first; calls through the other of the two names are not judged.",
 		Assumptions: modelAssumptions,
 		MinNontriv:  50,
 	},
@@ -49,7 +49,7 @@ var props = map[string]propCfg{
 		Quick:    tierCfg{Shards: 8, Checks: 1500, Timeout: 4 * time.Minute},
 		Thorough: tierCfg{Shards: 16, Checks: 12000, Timeout: 40 * time.Minute},
 		Rule: "as C01 on hosts of up to 400 lines (real standard-library files with generics, labels, struct tags, raw strings, build constraints, closures); the whole output file is compared with the reference rewrite as canonical trees, imports as a multiset. " +
-			"Non-trivial = >= 1 reference site (so the file is re-printed) ; distinct by sha256(patch, file). Parentheses outside the rewritten fragments must be exactly those of the input.",
+			"Non-trivial = >= 1 reference site (so the file is re-printed) ; distinct by sha256(patch, file). Parentheses outside the rewritten fragments must be exactly those of the input. One case in 20 each: a pattern that is a fully keyed composite literal, on a file with literals of the same keys in another order inside declarations without a site; a function declaration pattern that adds an import, on files whose import section is absent, \"C\" alone, one group or several declarations.",
 		Assumptions: modelAssumptions,
 		MinNontriv:  50,
 	},
@@ -94,7 +94,7 @@ var props = map[string]propCfg{
 			"with exactly one header or metavariable-section fault injected at a drawn change/line/column; patch.Parse must fail with a diagnostic 'name:line:col:' for the byte position of the " +
 			"offending token known to the generator (a sample also through the CLI: exit != 0, stderr has path:line:col, directory tree unchanged); plus rejected patches of other kinds " +
 			"(body syntax errors, truncations, token mutations of repository patches) through the CLI, judged only for 'stderr names the patch path, nothing rewritten'. " +
-			"Non-trivial = a judged header/metavariable fault on line > 1 with at least one comment/blank line or a whole change before it; distinct by sha256(name, patch, position, route). Go comments (also '/*line f.go:1:1*/') between the tokens of a metavariable declaration; patch file names with '%', ':' and blanks. Comment lines ending in a carriage return.",
+			"Non-trivial = a judged header/metavariable fault on line > 1 with at least one comment/blank line or a whole change before it; distinct by sha256(name, patch, position, route). Go comments (also '/*line f.go:1:1*/') between the tokens of a metavariable declaration; patch file names with '%', ':' and blanks. Comment lines ending in a carriage return. Every case is preceded, in the same process, by a parse of the same patch three lines further down under another name.",
 		Assumptions: []string{
 			"the fault-free twin of every generated patch is parsed first; a case whose twin is rejected is not judged (status:base-rejected in the class histogram, expected 0)",
 			"faults whose offending token is the end of the metavariable section (e.g. 'var x,' directly before '@@') are not generated: there is no token in the file to point at",
@@ -120,7 +120,7 @@ var props = map[string]propCfg{
 		Thorough: tierCfg{Shards: 16, Checks: 40000, Timeout: 20 * time.Minute},
 		Rule: "complete table: patch-side import form {absent, unnamed, literally named, metavariable-named, dot, blank} x file-side imports of the guarded path {none, unnamed, same name, other name, dot, blank, spelled like the metavariable, and 8 two-spec combinations in both orders} x file layout {single imports, one group, group among unrelated imports incl. paths that are a prefix/suffix of the guarded path, two blocks, ...: 8 layouts} x package clause {absent, same, different} x guard line kind {context, '-'} x second guarded import {none, satisfied, missing, present in another form} = 17k cells, in every one of which the code pattern does occur in the file; then generated cells with 0-5 extra unrelated imports in drawn forms. Oracle: the table in the property statement decides applies / no effect; 'no effect' is checked as byte-identical Apply result. " +
 			"Package clause cases: absent, same, different, and the near-misses file foo_test / guard foo, guard foo_test / file foo, both foo_test, guard a prefix of the name, guard longer than the name, other capitalisation. Body shapes: expression -> expression (full cross product), and expression -> several statements, statements -> statement, whole function declaration (crossed with two layouts and two second-guard cases). " +
-			"Non-trivial = every cell (each carries at least one guard); distinct by the cell's coordinates. Variants: a metavariable declared with the name of the guarding package clause; an earlier, never-applying change of the same patch file with the same import clause under the other reading of its name (metavariable vs. literal). Body 'uses-mv' (the code refers to the package through the metavariable that names the import; the file uses the name of the last of its imports of the path). 'uses-mv' is also crossed with a satisfied second import guard. Variant 'rename_to' ('-' package clause): the change renames the package, to the file's name or another; the '-' clause remains the guard.",
+			"Non-trivial = every cell (each carries at least one guard); distinct by the cell's coordinates. Variants: a metavariable declared with the name of the guarding package clause; an earlier, never-applying change of the same patch file with the same import clause under the other reading of its name (metavariable vs. literal). Body 'uses-mv' (the code refers to the package through the metavariable that names the import; the file uses the name of the last of its imports of the path). 'uses-mv' is also crossed with a satisfied second import guard. Variant 'rename_to' ('-' package clause): the change renames the package, to the file's name or another; the '-' clause remains the guard. File-side spelling 'upper' (the path with one letter in the other case: another path). The random part puts 60-400 unrelated imports in front in one case in ten.",
 		Assumptions: []string{
 			"a file that imports the guarded path twice satisfies a guard if any of the two specs has the stated form",
 			"the random part shares the oracle of the table; the table part alone is a complete enumeration of the stated cross product",
@@ -133,7 +133,7 @@ var props = map[string]propCfg{
 		Rule: "part (a): generated files with 0-8 bystander imports (unnamed, named, blank, dot; one group, single declarations, two blocks, with doc and trailing comments; paths that extend or are extended by the subject path) around a subject import, and patches that replace it, change its path keeping its name, delete it, add another import or merely match it, naming it literally, not at all or by an identifier metavariable, optionally with a second deleted or added import; the file still refers to the subject package not at all, plainly, or only through pkg.A.B / pkg.F().B / pkg.T[0].B / a nested func literal / type positions. Oracle on the (name, path) multiset: bystanders unchanged, nothing unmentioned added, '+' imports present once (under the captured name), '-' imports gone iff nothing refers to their package name any more (or a '+' import supplies the same name). " +
 			"Subject paths are plain, gopkg.in/yaml.v2 -> v3 or example.com/codec/v2 -> v3 (the package name is not the last path element); remaining uses include a parameter, a local variable and a receiver named like the package (not references to the package). " +
 			"part (b): mined patterns with '+import' lines on real hosts (host imports must survive as a multiset, the added import appears once). " +
-			"Non-trivial = (a) the change applies, >= 2 bystanders of >= 2 different forms, and the patch adds or deletes an import; (b) >= 1 site and a '+import' line. Kind 'rename-name-keep-path'; part (c) shape 'import added by an earlier change'. Part (c) shapes added: imports of a change that rewrites nothing (its code occurs only where the '+' code cannot stand) next to a change that does; a blank or dot import on a context line (literal or through a metavariable) stays; a change without import lines whose code pattern is a string or a bare name that also occurs in the import declaration.",
+			"Non-trivial = (a) the change applies, >= 2 bystanders of >= 2 different forms, and the patch adds or deletes an import; (b) >= 1 site and a '+import' line. Kind 'rename-name-keep-path'; part (c) shape 'import added by an earlier change'. Part (c) shapes added: imports of a change that rewrites nothing (its code occurs only where the '+' code cannot stand) next to a change that does; a blank or dot import on a context line (literal or through a metavariable) stays; a change without import lines whose code pattern is a string or a bare name that also occurs in the import declaration. 'file_case': the file imports the subject path with one letter in the other case (nothing applies). Part (c) shape: the '+' side asks for the very import the file has while the '-' side matches it through a metavariable.",
 		Assumptions: append([]string{
 			"the package name of an unnamed import is the last element of its path, and a metavariable import name is spelled like the package (the documented best practice); bystanders never share a package name with a subject import and no local identifier shadows a package name",
 			"an import matched on a context line that is no longer referred to is not judged (the property is silent)",
@@ -144,7 +144,7 @@ var props = map[string]propCfg{
 		Quick:    tierCfg{Shards: 8, Checks: 1500, Timeout: 3 * time.Minute},
 		Thorough: tierCfg{Shards: 16, Checks: 20000, Timeout: 30 * time.Minute},
 		Rule: "a base patch of one or two changes (mined pattern on a real host, see C01; optionally followed by a change that matches code the first one introduces) is rendered plainly and re-rendered under a drawn composition of layout transformations: '#' lines (above the patch, detached from the header, inside the metavariable section, inside the diff, trailing), blank lines (before the first header, inside the diff, trailing), naming the change, new description lines, consistent renaming of all metavariables to fresh identifiers, regrouping / reordering / ';'-joining the declarations, extra indentation, wrapping after every comma on all lines, joining context lines that end in ',' or '(' with the next context line, writing elision-free context lines as identical -/+ pairs and identical -/+ pairs as context lines. Oracle (metamorphic): base and variant are both rejected, or both results are equal as canonical syntax trees; a sample through the CLI checks that stderr carries exactly the '#' lines directly above a change's header. " +
-			"Non-trivial = the base patch changes the file and the variant differs from it in >= 2 transformation classes; distinct by sha256(base, variant, file). One case in six is a hand-written change with several elisions on a changed line (call arguments, result lists, composite literals); layout transformation 'common tail as context' ('-foo(REST' '+bar(REST' written as '-foo(' '+bar(' ' REST'). Layout transformation 'indent-description' (seen through the CLI sample).",
+			"Non-trivial = the base patch changes the file and the variant differs from it in >= 2 transformation classes; distinct by sha256(base, variant, file). One case in six is a hand-written change with several elisions on a changed line (call arguments, result lists, composite literals); layout transformation 'common tail as context' ('-foo(REST' '+bar(REST' written as '-foo(' '+bar(' ' REST'). Layout transformation 'indent-description' (seen through the CLI sample). A hand-written two-change base: nested blocks on unchanged lines of the first change, a statement change that applies in both blocks.",
 		Assumptions: append([]string{
 			"metavariables that name an import are not renamed (documented exception); generated base patches do not contain any",
 			"wrapping is done only after commas (never where a semicolon would be inserted) and identically on every line of both sides",
@@ -155,7 +155,7 @@ var props = map[string]propCfg{
 		Quick:    tierCfg{Shards: 8, Checks: 350, Timeout: 4 * time.Minute},
 		Thorough: tierCfg{Shards: 16, Checks: 2500, Timeout: 40 * time.Minute},
 		Rule: "sequences of 2-5 changes: (a) a mined change on a real host followed by changes that match only the marker code it introduces (bare identifier, empty call, one/two-argument call, call with elision, selector forms), independent changes mined from the same host, and steps that fail at rewrite time (plus side uses an unbound metavariable); (b) synthetic call-rewriting chains fK(...) -> fK+1(...) over a small file (argument permutation, dropping, duplication, wrapping of arguments, elisions that match zero arguments, changes on names that never occur, a later change on a wrapper introduced earlier). The sequence is cut into 1..n patch files and given as one file, several -p, a -P list, -p plus -P, or stdin. (c) guard sequences: 2-5 changes drawn from a pool that renames the package, replaces / adds / deletes / renames imports, or is guarded by a package clause or an import that an earlier change may have introduced or taken away; (d) focused histories on the same calls fK(<nested argument>, <tail>): steps that bind a metavariable to the nested argument and then fail to match, rewrite something strictly inside it, or reproduce it under a new callee (one patch file in a third of the cases, so that whatever a compiled program remembers is shared). Oracle (differential): the combined CLI run vs the chain of single-change runs, each on the bytes the previous one wrote, compared as canonical trees with parentheses looked through; if a single step fails, the combined run must exit non-zero and leave the file byte-identical. " +
-			"Non-trivial = at least two changes applied and one of them does not apply to the original file on its own, or a failing step after at least one applied change; distinct by sha256(changes, file, channel, split). Families added: 'synthetic-emptied' (an elision that stands for nothing empties a result / argument / field list, a later change is about the form without it; optionally a literal not in gofmt's form), 'synthetic-unprintable' (a step whose result cannot be printed, repaired by a later step), 'synthetic-shadowed-package' (a later change names an imported package, the file has a local of that name inside code an earlier change rebuilds). Family 'synthetic-generated-declarations' (an earlier change writes declarations, a later one binds an identifier metavariable at one of them and at an old use). Families 'synthetic-signatures' (an earlier change writes a result list - none, one unnamed, one named, several, or what an elision leaves - and a later one has the signature on context lines in a drawn spelling), 'synthetic-precedence' (an earlier change puts a sum where the printer must parenthesise it - operand of a product, a selector, a call, a unary operator, an index - or leaves one type argument of a list; the later change is written against the printed text). 'Repeat': in one case in six with several patch files the first file is named again at the end (same path), the chain runs its changes again.",
+			"Non-trivial = at least two changes applied and one of them does not apply to the original file on its own, or a failing step after at least one applied change; distinct by sha256(changes, file, channel, split). Families added: 'synthetic-emptied' (an elision that stands for nothing empties a result / argument / field list, a later change is about the form without it; optionally a literal not in gofmt's form), 'synthetic-unprintable' (a step whose result cannot be printed, repaired by a later step), 'synthetic-shadowed-package' (a later change names an imported package, the file has a local of that name inside code an earlier change rebuilds). Family 'synthetic-generated-declarations' (an earlier change writes declarations, a later one binds an identifier metavariable at one of them and at an old use). Families 'synthetic-signatures' (an earlier change writes a result list - none, one unnamed, one named, several, or what an elision leaves - and a later one has the signature on context lines in a drawn spelling), 'synthetic-precedence' (an earlier change puts a sum where the printer must parenthesise it - operand of a product, a selector, a call, a unary operator, an index - or leaves one type argument of a list; the later change is written against the printed text). 'Repeat': in one case in six with several patch files the first file is named again at the end (same path), the chain runs its changes again. A -P list may lack its final line feed. Shapes added to 'synthetic-precedence': a function type as the operand of a conversion.",
 		Assumptions: []string{
 			"-p files are given before the -P list (gopatch loads all -p patches first; the only unambiguous 'given order')",
 			"a failing step is one whose own single-change run exits non-zero; steps after it are not run in the chain",
@@ -167,7 +167,7 @@ var props = map[string]propCfg{
 		Thorough: tierCfg{Shards: 16, Checks: 2500, Timeout: 40 * time.Minute},
 		Rule: "compiling patches that put captured code where it may not fit (38 templates: expression holes reproduced in if/for/switch headers, selectors, index and composite positions, type positions, labels, statements <-> expressions; fillers include composite literals, key:value pairs, variadic x..., type expressions, func literals), template-grammar ill-typed patches, and mined patterns on real hosts; every case is run through the library API and through the CLI in 8 mode x flag combinations (in place, --print-only, --diff, each with and without --skip-import-processing, plus --skip-generated and -v). Oracle: every content emitted with exit status 0 (file bytes after an in-place run, --print-only stdout, original + applied --diff, Apply result) must parse with go/parser; when an error is reported instead, stderr must name the file, the file must be byte-identical and no new content may have been printed for it (an unchanged echo under --print-only is not an emission). " +
 			"One case in six uses a 239-byte file name (no temporary sibling can be created next to it); four templates make the file shorter. " +
-			"Non-trivial = some mode emitted content that differs from the input or reported a 'would not parse' error; distinct by sha256(patch, file). One case in four names 1-2 sibling files on the same command line in the writing modes (every file that changed must parse, whatever the exit status); three in ten append a 70 000-byte line and/or use CRLF line ends.",
+			"Non-trivial = some mode emitted content that differs from the input or reported a 'would not parse' error; distinct by sha256(patch, file). One case in four names 1-2 sibling files on the same command line in the writing modes (every file that changed must parse, whatever the exit status); three in ten append a 70 000-byte line and/or use CRLF line ends. Three template cases in eight carry a companion change in the same patch that always applies and cannot break anything (a plain rename before or after, a call rewrite after).",
 		Assumptions: []string{
 			"patches gopatch rejects at load time are not judged (nothing is emitted)",
 			"the unified diff printed by --diff is applied by a 60-line applier in the harness; a diff that does not apply is counted as unjudged here (C12 judges agreement of the modes)",
@@ -179,7 +179,7 @@ var props = map[string]propCfg{
 		Thorough: tierCfg{Shards: 16, Checks: 15000, Timeout: 40 * time.Minute},
 		Rule: "real hosts (their own comments of every kind: licence headers, //go:build lines, package docs, declaration docs, end-of-line and free-standing comments) additionally decorated by a comment injector (unique tokens c17_<n>: end-of-line comments after statements, free-standing comment lines, doc comments and //go:generate directives above top-level declarations, /* */ comments after ',' and '(' inside expressions, a file header), gofmt-stable, with a mined change that rewrites 1..n places. Oracle: (1) the multiset of comment texts of the output is included in that of the input; (2) for every top-level declaration in which the reference rewrites nothing, the list of its doc, inner and trailing comments is unchanged, in order; (3) header and package comments unchanged; (4) free-standing comments between two untouched declarations unchanged. Judged only when the code of the output equals the reference rewrite. " +
 			"Declarations of input and output correspond in order by exact code equality, so changes that remove a declaration, add one or turn one into another kind (func -> const, var -> func, ...; 9 such changes in the pool) are judged too. " +
-			"Non-trivial = a rewritten declaration whose two neighbours are untouched and commented; distinct by sha256(patch, file). Families added: 'import-section' (tokens on the package line, on import specs and declarations, cgo preamble, free-standing comments, build constraints; a patch that deletes / replaces / adds an import or none; each token must stay, once, attached to what it was attached to) and declaration runs of up to 170 rewritten declarations on either side of an untouched commented function. A quarter of the import-section cases run through the command line with --skip-import-processing; files without imports; a comment on the line below the package clause.",
+			"Non-trivial = a rewritten declaration whose two neighbours are untouched and commented; distinct by sha256(patch, file). Families added: 'import-section' (tokens on the package line, on import specs and declarations, cgo preamble, free-standing comments, build constraints; a patch that deletes / replaces / adds an import or none; each token must stay, once, attached to what it was attached to) and declaration runs of up to 170 rewritten declarations on either side of an untouched commented function. A quarter of the import-section cases run through the command line with --skip-import-processing; files without imports; a comment on the line below the package clause. Import-section op 'rename-package-then-replace-first-declaration' (files without imports).",
 		Assumptions: append([]string{
 			"comments are compared by whitespace-normalised text; empty comments ('//') are ignored; inputs are gofmt-stable so that gofmt's own doc-comment reformatting cannot change them",
 			"declarations correspond by index among non-import declarations (cases where a declaration pattern changes the number of declarations are judged by rule (1) only)",
@@ -196,7 +196,7 @@ var props = map[string]propCfg{
 			"Every listed call is failed once with each of ENOSPC / EIO / EACCES (read side: EACCES / EIO) and, separately, the process is SIGKILLed on entry to it; the run is also repeated under RLIMIT_FSIZE = N for N in {0..16, a stride through each output size, size-1}. Two fixed trees are enumerated completely in every run (split between the shards), the others are drawn. " +
 			"mode kinds (a complete table over a 3-file tree plus drawn compositions): unparseable source (6 fixed shapes, drawn cuts/insertions), a change whose + side uses an unbound metavariable, a change whose result does not parse, a target whose open fails with EACCES (alone and before/after another failing file), a missing path at each argument position, and a missing / unreadable / directory patch at each position of three patches given with -p or inside a -P list, and the -P list itself. " +
 			"Oracle: every pre-existing file holds its original or its fault-free bytes; after a normal exit no new directory entry remains, after a kill a new entry whose name ends in .go holds the original or patched bytes of some file; if the process was not killed, files the fault does not concern hold the fault-free result; whatever could not be processed (faulted file left unpatched, unreadable target, failing file, missing path, bad patch) makes the exit status non-zero and is named on stderr together with its cause (the errno text, a go/parser message, the metavariable); exit 0 implies every file holds its fault-free bytes. " +
-			"Non-trivial = (faults) the injector's log shows that exactly the intended call was tampered with and the file it belongs to is one the fault-free run rewrites, or the size limit is below the size of a rewritten file and demonstrably took effect; (kinds) at least one failure and at least one other file that the fault-free run rewrites. Distinct by sha256(case, file position, system call, ordinal, fault kind). Table additions: the same failure kind in two files at every pair of positions; an unparseable file that looks generated, with --skip-generated; patch lists that are a directory or hold a 70 000-byte line. Mode signal (one generated case in six): 200-600 files, SIGINT / SIGTERM / SIGHUP sent once the file at a drawn position has been rewritten; every file holds original or complete patched bytes and exit status 0 is possible only with every file patched. Non-trivial there = the run was stopped midway (some files patched, some not).",
+			"Non-trivial = (faults) the injector's log shows that exactly the intended call was tampered with and the file it belongs to is one the fault-free run rewrites, or the size limit is below the size of a rewritten file and demonstrably took effect; (kinds) at least one failure and at least one other file that the fault-free run rewrites. Distinct by sha256(case, file position, system call, ordinal, fault kind). Table additions: the same failure kind in two files at every pair of positions; an unparseable file that looks generated, with --skip-generated; patch lists that are a directory or hold a 70 000-byte line. Mode signal (one generated case in six): 200-600 files, SIGINT / SIGTERM / SIGHUP sent once the file at a drawn position has been rewritten; every file holds original or complete patched bytes and exit status 0 is possible only with every file patched. Non-trivial there = the run was stopped midway (some files patched, some not). Table: 255 / 256 / 257 / 512 unparseable files in one run. Kinds: a good file may be a hard link of another; a -P list may lack its final line feed; the fault-free run is itself checked against the library's result for every good file (exit 0 with a file left out is a finding).",
 		Assumptions: []string{
 			"the ptrace injector (harness/props/c16_helpers_test.go, linux/amd64) and prlimit are trusted; every shard first checks that the injector and strace -f -y see the same calls on the two fixed trees (disagreement = inconclusive), and every fault run is only judged if the injector's log shows exactly the intended call tampered with",
 			"fully patched = the bytes a fault-free run of the same command leaves in the file; in mode kinds the fault-free twin is the run over the tree without the failing files (files are processed independently)",
@@ -245,7 +245,7 @@ var props = map[string]propCfg{
 			"cli (about 35% of the cases): every file alone in a tree that holds nothing else vs all together (1-2 patch files; drawn order and spelling of file, directory and '...' arguments with duplicates and overlaps, relative or absolute; in place, -d or --print-only; -v, --skip-generated, --skip-import-processing), the grouped run done twice on an identically re-created tree and optionally in a second arrangement: per-file bytes, per-file stdout, description lines and error texts, exit status must be those of the solo runs; identical bytes give identical results. " +
 			"seq (about 25%): one patch.File, 2-8 Apply calls over 2-6 inputs with repeats, each compared with a fresh Parse + single Apply (bytes, error text). " +
 			"conc (about 40%): the same followed by 2-16 goroutines x 1-3 Apply calls on that patch.File released together, then the sequence again, in a child process of the -race test binary; a race report, a dead or stuck child, or any differing result is a violation. " +
-			"Non-trivial = cli: the grouped run covers >= 2 files of which >= 1 is changed by the patches and >= 1 is not (unchanged, unparseable, failing rewrite, skipped), and the argument list is not the sorted list of those files; seq: >= 3 calls, >= 2 distinct inputs, an input repeated, >= 1 call that rewrites; conc: >= 2 goroutines, >= 2 distinct inputs in the batch, >= 1 rewritten. Distinct by sha256(case). CLI trees may hold names too long to be written back (outcome write-error, the same alone and together) and hard links (two names of one file). Module scenario: sub/go.mod as an extra file, a file of that module and one outside it importing the module next to other third-party packages. Specials 'captured-name-under-import' (a captured name is the package in one file and a parameter or local in another, under an import the change only mentions) and 'package-guard'; package scenario (cli): every change restricted to one package, directories holding files of that package next to files of others (foo / foo_test).",
+			"Non-trivial = cli: the grouped run covers >= 2 files of which >= 1 is changed by the patches and >= 1 is not (unchanged, unparseable, failing rewrite, skipped), and the argument list is not the sorted list of those files; seq: >= 3 calls, >= 2 distinct inputs, an input repeated, >= 1 call that rewrites; conc: >= 2 goroutines, >= 2 distinct inputs in the batch, >= 1 rewritten. Distinct by sha256(case). CLI trees may hold names too long to be written back (outcome write-error, the same alone and together) and hard links (two names of one file). Module scenario: sub/go.mod as an extra file, a file of that module and one outside it importing the module next to other third-party packages. Specials 'captured-name-under-import' (a captured name is the package in one file and a parameter or local in another, under an import the change only mentions) and 'package-guard'; package scenario (cli): every change restricted to one package, directories holding files of that package next to files of others (foo / foo_test). Kind 'many' (one case in 25): 90-260 files (some without a site, some unparseable, optionally in subdirectories) in one run under prlimit --nofile=32..64, compared file by file with a run without the limit; the last file alone under the limit is the control.",
 		Assumptions: []string{
 			"the harness does not control the Go scheduler: interleavings of concurrent Apply calls are sampled by stress (goroutines released together on 16 cores), not enumerated; a race that needs a rare schedule can be missed, a reported race is real (the race detector has no false positives)",
 			"'processed alone' = the CLI run on a tree that contains only that file at the same relative path, with the same flags and patch files",
